@@ -57,8 +57,8 @@ def value_key(E, st, v):
 
 
 class Sig:
-    def __init__(self, C, E):
-        self.C, self.E = C, E
+    def __init__(self, C, E, symbolic_len=True):
+        self.C, self.E, self.symbolic_len = C, E, symbolic_len
         self.tags = {}          # id of the z3 base array of an opaque string -> tag
         self.json_cache = {}    # snapshot -> Str
         self.calls = []         # record of primitive calls (for the queries)
@@ -71,6 +71,20 @@ class Sig:
         OV.insert(0, (re.compile(r'^<base64::engine::GeneralPurpose as base64::Engine>::encode$'), self.engine_encode))
         OV.insert(0, (re.compile(r'^ruma_common::serde::(?:base64::)?Base64::encode$'), self.b64_encode))
         OV.insert(0, (re.compile(r'^ruma_common::serde::(?:base64::)?Base64::parse$'), self.b64_parse))
+        # key ids of signatures are `KeyId<SigningKeyAlgorithm, AnyKeyName>`: AnyKeyName accepts every key name (key_name.rs)
+        OV.append((re.compile(r'^<K as (?:ruma_identifiers_validation::)?KeyName>::validate$'), lambda E_, st, c, a, m: [(TRUE, ok(UNIT))]))
+        OV.insert(0, (re.compile(r'^ruma_common::serde::(?:base64::)?Base64::as_bytes$'), lambda E_, st, c, a, m: [(TRUE, E_.deref(st, E_.deref(st, a[0]).fields[0]))]))
+
+        def bytes_eq(E_, st, c, a, m):
+            x, y = E_.deref(st, a[0]), E_.deref(st, a[1])
+            if isinstance(x, Obj) and isinstance(y, Obj) and x.kind in ('Digest', 'SigBytes', 'PubKey'):
+                return [(TRUE, z3.BoolVal(x.kind == y.kind and x.data == y.data))]
+            return None
+        OV.insert(0, (re.compile(r'^<&\[u8\] as std::cmp::PartialEq>::eq$|^<\[u8\] as std::cmp::PartialEq>::eq$'), bytes_eq))
+        # KeyId::<SigningKeyAlgorithm, _>::algorithm: the impl's generic parameter A is SigningKeyAlgorithm at every call site here
+        def alg_from(E_, st, c, a, m):
+            return E_.outs_to_model(E_.call_value(st, FnItem('<ruma_common::identifiers::crypto_algorithms::SigningKeyAlgorithm as std::convert::From<&str>>::from', 'common'), [a[0]]))
+        OV.append((re.compile(r'^<A as std::convert::From>::from$'), alg_from))
         E.const_models = getattr(E, 'const_models', {})
         E.const_models['base64::alphabet::STANDARD'] = Obj('Alphabet', 'standard')
         E.const_models['base64::alphabet::URL_SAFE'] = Obj('Alphabet', 'url_safe')
@@ -80,7 +94,7 @@ class Sig:
     def fresh_str(self, tag, name):
         self.n += 1
         arr = z3.Array(f'{name}_{self.n}', z3.BitVecSort(64), z3.BitVecSort(8))
-        ln = z3.BitVec(f'{name}_len_{self.n}', 64)
+        ln = z3.BitVec(f'{name}_len_{self.n}', 64) if (self.symbolic_len or name != 'json') else bv(100)
         s = Str(arr, bv(0), ln, True, self.E.N)
         self.tags[arr.get_id()] = tag
         return s
